@@ -240,6 +240,10 @@ impl Cfg {
 #[derive(Clone, Copy, PartialEq, Eq, Debug, Hash, PartialOrd, Ord)]
 pub enum Who {
     Us,
+    /// second address of the interface (other subnet, listed second: source selection picks
+    /// `Us` for every destination of the alphabet); only ever used as an explicit
+    /// `UdpMetadata::local_address`
+    Us2,
     /// on-link neighbor, resolved before the exploration starts
     A,
     /// on-link neighbor, unresolved; answers only through `NeighReply` / `Drain`
@@ -299,6 +303,10 @@ fn addr(v6: bool, w: Who) -> Addr {
         a[0] = 0xfd;
         match w {
             Who::Us => a[15] = 1,
+            Who::Us2 => {
+                a[1] = 0x02;
+                a[15] = 1
+            }
             Who::A => a[15] = 2,
             Who::B => a[15] = 3,
             Who::C => {
@@ -310,6 +318,7 @@ fn addr(v6: bool, w: Who) -> Addr {
     } else {
         match w {
             Who::Us => Addr::V4([192, 168, 1, 1]),
+            Who::Us2 => Addr::V4([192, 168, 2, 1]),
             Who::A => Addr::V4([192, 168, 1, 2]),
             Who::B => Addr::V4([192, 168, 1, 3]),
             Who::C => Addr::V4([10, 0, 0, 9]),
@@ -450,6 +459,11 @@ struct TxEntry {
     /// exactly what the application handed to send*
     bytes: Vec<u8>,
     malformed: bool,
+    /// udp: `UdpMetadata::local_address` given to send (None = not set)
+    local: Option<Who>,
+    /// udp: the socket was bound to a specific address when send accepted the datagram (a
+    /// re-bind needs close(), which discards the queue, so this is also the binding at dispatch)
+    bound_addr: bool,
 }
 
 #[derive(Clone, Debug)]
@@ -483,7 +497,9 @@ pub enum Api {
 #[derive(Clone, Debug, PartialEq)]
 pub enum Ev {
     /// `size` = total bytes handed to the socket (header supplied by the application included)
-    Send { size: usize, dst: Who, api: Api, malformed: bool },
+    /// `local`: udp only, `UdpMetadata::local_address = Some(own address)` (send_slice with a
+    /// `UdpMetadata` value)
+    Send { size: usize, dst: Who, api: Api, malformed: bool, local: Option<Who> },
     RecvBig,
     RecvSmall,
     Peek,
@@ -568,12 +584,22 @@ impl DgH {
                         1 => Api::Send,
                         _ => Api::SendWith,
                     };
-                    v.push(Ev::Send { size, dst, api, malformed: false });
+                    v.push(Ev::Send { size, dst, api, malformed: false, local: None });
+                }
+            }
+            if cfg.kind == Kind::Udp && cfg.ip_mtu == 0 {
+                // per-datagram source address: either own address, towards a resolved and an
+                // unresolved neighbor; offered while bound by port and while bound by (Us, port)
+                let s = cfg.sizes();
+                v.push(Ev::Send { size: s[1], dst: Who::A, api: Api::SendSlice, malformed: false, local: Some(Who::Us) });
+                v.push(Ev::Send { size: s[1], dst: Who::A, api: Api::SendSlice, malformed: false, local: Some(Who::Us2) });
+                if cfg.eth {
+                    v.push(Ev::Send { size: s[2], dst: Who::B, api: Api::SendSlice, malformed: false, local: Some(Who::Us2) });
                 }
             }
             if cfg.kind != Kind::Udp {
                 // 3 bytes that are neither an ICMP message nor an IP packet
-                v.push(Ev::Send { size: 3, dst: Who::A, api: Api::SendSlice, malformed: true });
+                v.push(Ev::Send { size: 3, dst: Who::A, api: Api::SendSlice, malformed: true, local: None });
             }
         }
         if rx {
@@ -1025,10 +1051,24 @@ impl DgH {
             stat(if pos == 0 { O::TxMatched } else { O::TxMatchedSkipping });
         }
         // addressing of the matched datagram
-        // the interface owns exactly one address of the family (udp/icmp: selected by the
-        // stack; raw: the address the application wrote into its header)
-        if info.src != self.us() {
-            let d = format!("datagram #{} to {} left with source address {}", e.label, info.dst, info.src);
+        // udp: UdpMetadata::local_address if the application set it, else the address the
+        // socket is bound to, else whatever source selection gives (lenient: any own address;
+        // C11 judges the selection).  icmp: selected by the stack (any own address).  raw: the
+        // address the application wrote into its header.
+        let (ok, want) = match (self.cfg.kind, e.local, e.bound_addr) {
+            (Kind::Udp, Some(w), _) => (info.src == self.a(w), format!("{} (UdpMetadata::local_address)", self.a(w))),
+            (Kind::Udp, None, true) | (Kind::Raw, _, _) => (info.src == self.us(), self.us().to_string()),
+            _ => (info.src == self.us() || info.src == self.a(Who::Us2), "one of the interface's addresses".to_string()),
+        };
+        if !ok {
+            let d = format!(
+                "datagram #{} to {} left with source address {}, expected {}{}",
+                e.label,
+                info.dst,
+                info.src,
+                want,
+                if e.bound_addr { format!("; socket bound to {}", self.us()) } else { String::new() }
+            );
             self.viol(out, "tx-addressing", "source-address", d, false);
         }
         if self.cfg.kind == Kind::Udp {
@@ -1067,7 +1107,8 @@ impl DgH {
     }
 
     // ---- application events ---------------------------------------------------------------
-    fn do_send(&mut self, size: usize, dst: Who, api: &Api, malformed: bool, out: &mut Vec<Viol>) {
+    fn do_send(&mut self, size: usize, dst: Who, api: &Api, malformed: bool, local: Option<Who>, out: &mut Vec<Viol>) {
+        let bound_addr = self.cfg.kind == Kind::Udp && self.sockets.get::<udp::Socket>(self.h).endpoint().addr.is_some();
         let label = self.tx_label;
         let bytes = self.app_datagram(size, dst, label, malformed);
         let n = bytes.len();
@@ -1078,7 +1119,8 @@ impl DgH {
         let mut wrote = usize::MAX;
         let res: Result<(), (bool, String)> = match self.cfg.kind {
             Kind::Udp => {
-                let ep = IpEndpoint::new(dst_ip, REMOTE_PORT);
+                let mut ep: udp::UdpMetadata = IpEndpoint::new(dst_ip, REMOTE_PORT).into();
+                ep.local_address = local.map(|w| to_ip(&self.a(w)));
                 let s = self.udp();
                 let r = match api {
                     Api::SendSlice => s.send_slice(&bytes, ep),
@@ -1151,7 +1193,7 @@ impl DgH {
                         self.viol(out, "tx-liveness", "vanished-from-queue", d, true);
                     }
                 }
-                self.tx_model.push_back(TxEntry { label, dst, bytes, malformed });
+                self.tx_model.push_back(TxEntry { label, dst, bytes, malformed, local, bound_addr });
             }
             Err((unaddr, text)) => {
                 vlog!("      send -> Err({})", text);
@@ -1792,7 +1834,11 @@ impl Harness for DgH {
         c.random_seed = 1;
         let mut iface = Interface::new(c, &mut dev, Instant::from_micros(0));
         let us = addr(cfg.v6, Who::Us);
-        iface.update_ip_addrs(|a| a.push(IpCidr::new(to_ip(&us), if cfg.v6 { 64 } else { 24 })).unwrap());
+        let us2 = addr(cfg.v6, Who::Us2);
+        iface.update_ip_addrs(|a| {
+            a.push(IpCidr::new(to_ip(&us), if cfg.v6 { 64 } else { 24 })).unwrap();
+            a.push(IpCidr::new(to_ip(&us2), if cfg.v6 { 64 } else { 24 })).unwrap();
+        });
         if cfg.eth && cfg.via_b {
             match to_ip(&addr(cfg.v6, Who::B)) {
                 IpAddress::Ipv4(b) => {
@@ -1876,7 +1922,7 @@ impl Harness for DgH {
     fn apply(&mut self, ev: &Ev, out: &mut Vec<Viol>) {
         vlog!("  t={}us {:?}", self.now, ev);
         match ev {
-            Ev::Send { size, dst, api, malformed } => self.do_send(*size, *dst, api, *malformed, out),
+            Ev::Send { size, dst, api, malformed, local } => self.do_send(*size, *dst, api, *malformed, *local, out),
             Ev::RecvBig => self.do_recv(true, out),
             Ev::RecvSmall => self.do_recv(false, out),
             Ev::Peek => self.do_peek(false, out),
@@ -1921,7 +1967,7 @@ impl Harness for DgH {
         if padding {
             stat(O::PaddingState);
         }
-        let tx: Vec<(usize, Who, bool)> = self.tx_model.iter().map(|e| (e.bytes.len(), e.dst, e.malformed)).collect();
+        let tx: Vec<(usize, Who, bool, Option<Who>, bool)> = self.tx_model.iter().map(|e| (e.bytes.len(), e.dst, e.malformed, e.local, e.bound_addr)).collect();
         let rx: Vec<(usize, Who, To)> = self.rx_model.iter().map(|e| (e.bytes.len(), e.from, e.to)).collect();
         fp128(&(img, tx, rx, self.dev.refuse_next, self.dev.inner.rx.len(), self.pending_b, self.b_resolved, self.tainted, self.frag_started))
     }
@@ -1962,6 +2008,7 @@ fn depth_for(tier: Tier, c: &Cfg) -> usize {
             (Tier::Thorough, _) => 6,
         };
     }
+    let udp = (c.kind == Kind::Udp) as usize;
     match (tier, c.phase) {
         (_, Phase::Rx) => FIX,
         (Tier::Quick, Phase::Mix) => {
@@ -1973,7 +2020,8 @@ fn depth_for(tier: Tier, c: &Cfg) -> usize {
         }
         (Tier::Quick, Phase::Tx) => match (c.slots, c.eth) {
             (1, _) | (2, _) => FIX,
-            (_, true) => 6,
+            // the udp alphabet is larger (local_address sends)
+            (_, true) => 6 - udp,
             (_, false) => 7,
         },
         (Tier::Thorough, Phase::Mix) => match (c.slots, c.k) {
@@ -1985,8 +2033,8 @@ fn depth_for(tier: Tier, c: &Cfg) -> usize {
             (1, _, _) | (2, _, _) => FIX,
             (_, false, _) => FIX,
             (_, true, 4) => FIX,
-            (_, true, 6) => 10,
-            (_, true, _) => 9,
+            (_, true, 6) => 10 - udp,
+            (_, true, _) => 9 - udp,
         },
     }
 }
@@ -2129,6 +2177,7 @@ pub fn run(tier: Tier) -> i32 {
         "alphabet",
         json!({
             "tight_links": "IPv4, tx alphabet, IP MTU 36 (= 4 mod 8) and 34: send sizes {hdr, M-1, M, M+1} with M = the datagram whose IP packet is exactly the IP MTU; a datagram that fits must leave unfragmented (MF=0, offset 0); for M+1 the first fragment stands for the datagram, later fragments are only counted (C12)",
+            "send_local_address": "udp: the interface owns two addresses per family; extra sends with UdpMetadata::local_address = Some(first own address) / Some(second own address) (to A, and to the unresolved B on Ethernet), offered while bound by port and while bound by (first address, port); expected IP source = local_address if set, else the bound address, else any own address",
             "send": "size in {hdr, hdr+1, hdr+3, capacity} x destination in {A resolved, B unresolved on-link, C off-link (default route via B | no route)}; api rotates over send_slice / send / send_with(max=size+2); plus 3 malformed bytes (icmp, raw)",
             "receive": "recv_slice(capacity+8), recv_slice(hdr+2), peek, peek_slice(hdr+2) (udp, raw)",
             "socket": "bind(port) / bind(addr,port) / close (udp); bind(Ident) (icmp)",
